@@ -19,6 +19,7 @@ import (
 	"reflect"
 	"sort"
 	"strings"
+	"sync/atomic"
 	"time"
 
 	"github.com/anishathalye/porcupine"
@@ -33,6 +34,7 @@ import (
 	"github.com/Tnze/go-mc/verifshim/sched"
 
 	"verif/engine"
+	"verif/ref/refnbt"
 )
 
 var rep *engine.Report
@@ -401,25 +403,52 @@ type cacheProbe struct {
 	A int32  `nbt:"a"`
 	B string `nbt:"b,omitempty"`
 	C []int8 `nbt:"c"`
+	D int64  `nbt:"identifiervalue"`
+}
+
+// freeIter is the iteration number of the free-running pass (0 under the controlled scheduler): the
+// decoding threads spell the key of field D differently in every iteration, because whatever a decoder
+// remembers per spelling in the shared per-type cache is only touched the first time a spelling is seen.
+var freeIter int64
+
+// spelling returns "identifiervalue" with the letters selected by the bits of k in upper case; a
+// decoder matches such a key to field D only through its case-insensitive fallback.
+func spelling(k int64) string {
+	b := []byte("identifiervalue")
+	for i := range b {
+		if k>>uint(i)&1 == 1 {
+			b[i] -= 'a' - 'A'
+		}
+	}
+	return string(b)
 }
 
 func nbtCacheScenario(threads int) Scenario {
 	return Scenario{Name: fmt.Sprintf("nbt-type-cache/threads=%d", threads), Horizon: 4000, Body: func(x *Exec) {
-		want, _ := nbt.Marshal(cacheProbe{A: 7, B: "x", C: []int8{1, 2}})
+		want, _ := nbt.Marshal(cacheProbe{A: 7, B: "x", C: []int8{1, 2}, D: 9})
+		iter := atomic.LoadInt64(&freeIter)
 		var hs []sched.Handle
 		for t := 1; t <= threads; t++ {
 			t := t
 			hs = append(hs, sched.GoJoinable(fmt.Sprintf("nbt%d", t), func() {
 				if t%2 == 1 {
-					got, err := nbt.Marshal(cacheProbe{A: 7, B: "x", C: []int8{1, 2}})
+					got, err := nbt.Marshal(cacheProbe{A: 7, B: "x", C: []int8{1, 2}, D: 9})
 					if err != nil || !bytes.Equal(got, want) {
 						x.fail("concurrent Marshal differs from the sequential run: thread %d gave %x (err %v), sequential %x", t, got, err, want)
 					}
 				} else {
 					var v cacheProbe
-					if err := nbt.Unmarshal(want, &v); err != nil || v.A != 7 || v.B != "x" || len(v.C) != 2 {
+					if err := nbt.Unmarshal(want, &v); err != nil || v.A != 7 || v.B != "x" || len(v.C) != 2 || v.D != 9 {
 						x.fail("concurrent Unmarshal differs from the sequential run: thread %d gave %+v (err %v)", t, v, err)
 					}
+				}
+				// every thread also decodes a document whose keys match the fields only case-insensitively
+				// (legal input that go-mc's own encoder never produces), with a spelling no earlier iteration used
+				key := spelling(1 + (iter*8+int64(t))%32767)
+				doc := refnbt.Append(nil, "", &refnbt.Node{Tag: refnbt.Compound, Fields: []refnbt.Field{{Name: "A", Val: &refnbt.Node{Tag: refnbt.Int, I: 5}}, {Name: key, Val: &refnbt.Node{Tag: refnbt.Long, I: int64(100 + t)}}}}, false)
+				var v cacheProbe
+				if err := nbt.Unmarshal(doc, &v); err != nil || v.A != 5 || v.D != int64(100+t) {
+					x.fail("concurrent Unmarshal of a document with keys %q, %q (case-insensitive field match) differs from the sequential run: thread %d gave %+v (err %v)", "A", key, t, v, err)
 				}
 			}))
 		}
@@ -812,6 +841,9 @@ func racePass() {
 		rep.Fail(engine.Failure{Class: "race-pass/hang", Detail: "a free-running scenario iteration did not finish within 60 s (threads blocked for good): " + r.Stdout, Case: map[string]any{"kind": "race-pass", "log": r.Stdout}}, 0)
 	case r.Exit == 3:
 		rep.Fail(engine.Failure{Class: "race-pass/oracle-failure", Detail: r.Stdout, Case: map[string]any{"kind": "race-pass", "log": r.Stdout}}, 0)
+	case r.Exit == 2 && strings.Contains(r.Stderr, "fatal error: concurrent map"):
+		// the runtime's own unsynchronised-map detector fired before the race detector did
+		rep.Fail(engine.Failure{Class: "race-pass/fatal/concurrent-map-access", Detail: "the free-running pass died with an unrecoverable runtime error: " + r.Stderr, Case: map[string]any{"kind": "race-pass", "log": r.Stderr}}, 0)
 	case r.Exit != 0:
 		engine.HarnessError("free-running pass ended with exit %d: %s %s", r.Exit, r.Stdout, r.Stderr)
 	}
